@@ -30,3 +30,20 @@ Theorem C16_covers_legacy_refuted :
   exists roff coff h w H W, covers_legacy roff coff h w H W = true /\ covers (1#1000000) roff coff h w H W = false.
 Proof. exact covers_legacy_refuted. Qed.
 Print Assumptions C16_covers_legacy_refuted.
+
+(* ---- tie to the source (gen/CoverGen.v, regenerated on every run by translate/cover.py): the decision of utils.covers_bounds in the CURRENT source
+        is Grid.Cover.covers with a tolerance of 1e-6 pixel, on the window of the source bounds in the reference pixel grid (both images seen
+        north-up in one coordinate system), and RasterPairReader raises ImageContentError exactly when it is False *)
+From HV Require Import Tie.CoverTie.
+From HVgen Require Import CoverGen.
+Theorem C16_source_decision_is_the_model roff coff h w H W :
+  CoverGen.translation_failed = false /\ gen_covers roff coff h w H W = covers (1 # 1000000) roff coff h w H W /\
+  gen_window_of_bounds_ok = true /\ gen_expand_only_when_asked = true /\ gen_reader_rejects_ok = true.
+Proof. exact (cover_tied roff coff h w H W). Qed.
+(* hence, for north-up rational geometry, the current source accepts iff the source footprint is inside the reference footprint on all four sides *)
+Theorem C16_source_accepts_iff_contains X0 Y0 res l b r t H W : 0 < res ->
+  gen_covers (win_roff Y0 res t) (win_coff X0 res l) (win_h res b t) (win_w res l r) H W = true <->
+  (X0 <= l /\ r <= X0 + (inject_Z W + (1 # 1000000)) * res /\ Y0 - (inject_Z H + (1 # 1000000)) * res <= b /\ t <= Y0).
+Proof. exact (source_accepts_iff_contains X0 Y0 res l b r t H W). Qed.
+Print Assumptions C16_source_decision_is_the_model.
+Print Assumptions C16_source_accepts_iff_contains.
